@@ -570,6 +570,12 @@ type caseT struct {
 	Order    []string          `json:"file_order"`
 	Input    string            `json:"stdin"`
 	CrossCut bool              `json:"a_file_boundary_falls_inside_an_action"`
+	NoFinalNewline bool        `json:"some_file_lacks_its_final_newline,omitempty"`
+	EmptyFiles     int         `json:"empty_files,omitempty"`
+	CommentFiles   int         `json:"comment_only_files,omitempty"`
+	Pre            string      `json:"profile_file_before_the_run,omitempty"` // absent | same-program | other-program
+	PreAppend      bool        `json:"coverappend,omitempty"`
+	PreMode        string      `json:"covermode,omitempty"`
 
 	p *program
 }
@@ -586,12 +592,22 @@ func (p *program) split(c *vh.Ctx, dir string) *caseT {
 			itemEnds = append(itemEnds, i+1)
 		}
 	}
-	for k := 1; k < nfiles; k++ {
-		if c.Rng.Intn(4) == 0 && n > 2 {
-			cuts = append(cuts, 1+c.Rng.Intn(n-1))
-			continue
+	// … or right before the first statement of a basic block, so that a block starts on line 1 of a file
+	var headCuts []int
+	for _, b := range p.blocks() {
+		if b.stmts[0].line > 1 {
+			headCuts = append(headCuts, b.stmts[0].line-1)
 		}
-		cuts = append(cuts, itemEnds[c.Rng.Intn(len(itemEnds))])
+	}
+	for k := 1; k < nfiles; k++ {
+		switch x := c.Rng.Intn(8); {
+		case x < 2 && n > 2:
+			cuts = append(cuts, 1+c.Rng.Intn(n-1))
+		case x < 4 && len(headCuts) > 0:
+			cuts = append(cuts, headCuts[c.Rng.Intn(len(headCuts))])
+		default:
+			cuts = append(cuts, itemEnds[c.Rng.Intn(len(itemEnds))])
+		}
 	}
 	sort.Ints(cuts)
 	prev := 0
@@ -625,6 +641,51 @@ func (p *program) split(c *vh.Ctx, dir string) *caseT {
 			cs.CrossCut = true
 		}
 	}
+	// some program files lose their final newline (goawk supplies it)
+	for _, name := range cs.Order {
+		if c.Rng.Intn(4) == 0 {
+			cs.Files[name] = strings.TrimSuffix(cs.Files[name], "\n")
+			cs.NoFinalNewline = true
+		}
+	}
+	// files that contribute no statement: empty, or only comments / blank lines — first, in the middle, last, consecutive.
+	// They are not in p.Files: no block may be reported under their name.
+	fillers := []string{"", "", "# only a comment\n", "\n\n# blank lines and a comment\n", "# comment without final newline"}
+	nfill := []int{0, 1, 1, 2, 2, 3}[c.Rng.Intn(6)]
+	for k := 0; k < nfill && len(cs.Order) < 5; k++ {
+		name := fmt.Sprintf("e%d.awk", k+1)
+		cs.Files[name] = fillers[c.Rng.Intn(len(fillers))]
+		var pos int
+		switch c.Rng.Intn(5) {
+		case 0:
+			pos = 0
+		case 1:
+			pos = len(cs.Order)
+		case 2, 3: // directly in front of a non-first file
+			pos = 1 + c.Rng.Intn(len(cs.Order))
+			if pos > len(cs.Order)-1 {
+				pos = len(cs.Order) - 1
+			}
+			if pos < 1 {
+				pos = len(cs.Order)
+			}
+		default:
+			pos = c.Rng.Intn(len(cs.Order) + 1)
+		}
+		if k > 0 && c.Rng.Intn(2) == 0 { // next to the previous filler
+			for j, n := range cs.Order {
+				if n == fmt.Sprintf("e%d.awk", k) {
+					pos = j + c.Rng.Intn(2)
+				}
+			}
+		}
+		cs.Order = append(cs.Order[:pos], append([]string{name}, cs.Order[pos:]...)...)
+		if cs.Files[name] == "" {
+			cs.EmptyFiles++
+		} else {
+			cs.CommentFiles++
+		}
+	}
 	return cs
 }
 
@@ -643,6 +704,7 @@ type result struct {
 	setMode, countMode           string
 	profErr                      string
 	appendMsg                    string
+	preMsg                       string
 	twinCounts                   map[int]int
 }
 
@@ -677,6 +739,47 @@ func runCase(cs *caseT, dir string, doAppend bool) (r result) {
 	}
 	if r.countMode, r.countProf, ml, err = parseProfile(filepath.Join(dir, "count.out")); err != nil || ml != 1 {
 		r.profErr += fmt.Sprint(" count profile: ", err, " mode lines ", ml)
+	}
+	if cs.Pre != "" && r.profErr == "" {
+		// a further run into a profile file that is absent / was written by this program / was written by another program
+		ref := "count.out"
+		if cs.PreMode == "set" {
+			ref = "set.out"
+		}
+		refB, _ := os.ReadFile(filepath.Join(dir, ref))
+		refLines := strings.SplitN(string(refB), "\n", 2) // mode line, data lines
+		data := ""
+		if len(refLines) == 2 {
+			data = refLines[1]
+		}
+		pre := ""
+		switch cs.Pre {
+		case "same-program":
+			pre = string(refB)
+		case "other-program":
+			pre = "mode: " + cs.PreMode + "\n/tmp/other/prog.awk:1.1,1.12 1 1\n/tmp/other/prog.awk:2.1,2.5 3 0\n"
+		}
+		target := filepath.Join(dir, "pre.out")
+		os.Remove(target)
+		if cs.Pre != "absent" {
+			os.WriteFile(target, []byte(pre), 0o644)
+		}
+		args := []string{"-covermode", cs.PreMode, "-coverprofile", "pre.out"}
+		if cs.PreAppend {
+			args = append(args, "-coverappend")
+		}
+		rr := runGoawk(dir, append(args, fargs...)...)
+		gotB, _ := os.ReadFile(target)
+		want := "mode: " + cs.PreMode + "\n" + data
+		if cs.PreAppend && cs.Pre != "absent" {
+			want = pre + data
+		}
+		if rr.Out != r.plain.Out || rr.Status != r.plain.Status {
+			r.preMsg = fmt.Sprintf("output/status changed: %q/%d", rr.Out, rr.Status)
+		} else if string(gotB) != want {
+			r.preMsg = fmt.Sprintf("profile file is not %s this run's complete profile (every block once, with its count)\n--- got\n%s--- want\n%s",
+				map[bool]string{true: "the previous content followed by", false: "exactly"}[cs.PreAppend && cs.Pre != "absent"], gotB, want)
+		}
 	}
 	if doAppend {
 		// second run with -coverappend doubles the data lines under one mode line; a third without it starts over
@@ -727,6 +830,9 @@ func check(cs *caseT, r result) (fs []failT) {
 	}
 	if r.appendMsg != "" {
 		add("append/overwrite of the profile file", "", r.appendMsg, "")
+	}
+	if r.preMsg != "" {
+		add(fmt.Sprintf("profile written onto a file that was %s before the run (append=%v, mode=%s)", cs.Pre, cs.PreAppend, cs.PreMode), "", r.preMsg, "")
 	}
 	bs := p.blocks()
 	// every block inside its file, start before end
@@ -834,12 +940,17 @@ func fixedPrograms() []*program {
 		mk(&item{Kind: "action", Header: "/a/", Body: []*stmt{}}, &item{Kind: "action", Header: "/b/", NilBody: true}),
 		// G18-1 (repaired): an action that compiles to no code prints nothing, with and without coverage
 		mk(&item{Kind: "action", Header: "/a/", Body: []*stmt{{Kind: "block", Body: []*stmt{}}}}),
+		// G18-2 (repaired): END / BEGIN bodies that compile to no code
+		mk(&item{Kind: "end", Header: "END", Body: []*stmt{{Kind: "block", Body: []*stmt{}}}}, &item{Kind: "action", Header: "", Body: []*stmt{S(`print "s#"`)}}),
+		mk(&item{Kind: "begin", Header: "BEGIN", Body: []*stmt{{Kind: "block", Body: []*stmt{{Kind: "block", Body: []*stmt{}}}}}}, &item{Kind: "end", Header: "END", Body: []*stmt{S(`print "s#", NR`)}}),
 		// Appendix C: counter after the first statement would miss `next`
 		mk(&item{Kind: "action", Header: "", Body: []*stmt{J("next"), S(`print "s#"`)}}),
 		mk(&item{Kind: "begin", Header: "BEGIN", Body: []*stmt{S(`print "s#"`), {Kind: "if", Text: "if (c#++ < 1)", Body: []*stmt{S("x#++")}}, S(`print "s#"`)}}),
 		mk(&item{Kind: "begin", Header: "BEGIN", Body: []*stmt{{Kind: "do", Text: "while (d#++ < 2)", Body: []*stmt{{Kind: "if", Text: "if (c#++ == 1)", Body: []*stmt{J("continue")}, Else: true, Els: []*stmt{}}, S("x#++")}}, J("exit 2"), S("x#++")}}),
 		mk(&item{Kind: "func", Header: "function fa(a)", Body: []*stmt{{Kind: "block", Body: []*stmt{J("return 1"), S("x#++")}}, S("x#++")}},
 			&item{Kind: "end", Header: "END", Body: []*stmt{S("u# = fa(1)"), {Kind: "while", Text: "while (w#++ < 3)", Body: []*stmt{{Kind: "for", Text: "for (i# = 0; i# < 2; i#++)", Body: []*stmt{J("break")}}}}}}),
+		// a block that is never executed (keep last: used by the C18-n1 / C18-n2 witnesses)
+		mk(&item{Kind: "begin", Header: "BEGIN", Body: []*stmt{{Kind: "if", Text: "if (c#++ > 5)", Body: []*stmt{S("x#++")}}, S(`print "s#"`)}}),
 	}
 }
 
@@ -866,7 +977,7 @@ func runC18(c *vh.Ctx) {
 	}
 	// F26 witness: one action split over two files in the middle of a block
 	{
-		p := fixedPrograms()[3]
+		p := fixedPrograms()[5]
 		p.render(func(int) int { return 1 })
 		dir := filepath.Join(scratch, fmt.Sprintf("fix%d", len(cases)))
 		cs := &caseT{Files: map[string]string{"p1.awk": strings.Join(p.Lines[:2], "\n") + "\n", "p2.awk": strings.Join(p.Lines[2:], "\n") + "\n"},
@@ -874,13 +985,32 @@ func runC18(c *vh.Ctx) {
 		p.Files = []fileT{{filepath.Join(dir, "p1.awk"), 1, 2}, {filepath.Join(dir, "p2.awk"), 3, len(p.Lines) - 2}}
 		cases = append(cases, cs)
 	}
+	// C18-n1 shape: an EMPTY non-first file; the file after it has a block head on its line 1. C18-n2 shape: a program with an
+	// unexecuted block appended (set mode) onto a profile written by another program.
+	{
+		all := fixedPrograms()
+		p := all[len(all)-1]
+		p.render(func(int) int { return 1 })
+		dir := filepath.Join(scratch, fmt.Sprintf("fix%d", len(cases)))
+		cs := &caseT{Files: map[string]string{"p1.awk": strings.Join(p.Lines[:2], "\n") + "\n", "e1.awk": "", "p2.awk": strings.Join(p.Lines[2:], "\n")},
+			Order: []string{"p1.awk", "e1.awk", "p2.awk"}, Input: c18Input, p: p, CrossCut: true, EmptyFiles: 1, NoFinalNewline: true,
+			Pre: "other-program", PreAppend: true, PreMode: "set"}
+		p.Files = []fileT{{filepath.Join(dir, "p1.awk"), 1, 2}, {filepath.Join(dir, "p2.awk"), 3, len(p.Lines) - 2}}
+		cases = append(cases, cs)
+	}
 	nfix := len(cases)
-	n := c.N(40, 600)
+	n := c.N(150, 1500)
 	for i := 0; i < n; i++ {
 		g := &gen{c: c}
 		p := g.program()
 		p.render(c.Rng.Intn)
-		cases = append(cases, p.split(c, filepath.Join(scratch, fmt.Sprintf("g%d", i))))
+		cs := p.split(c, filepath.Join(scratch, fmt.Sprintf("g%d", i)))
+		if i%2 == 0 {
+			cs.Pre = []string{"absent", "same-program", "other-program", "other-program"}[c.Rng.Intn(4)]
+			cs.PreAppend = c.Rng.Intn(3) != 0
+			cs.PreMode = []string{"set", "count"}[c.Rng.Intn(2)]
+		}
+		cases = append(cases, cs)
 	}
 	results := make([]result, len(cases))
 	vh.Parallel(len(cases), func(i int) {
@@ -924,6 +1054,30 @@ func runC18(c *vh.Ctx) {
 		c.Hit(fmt.Sprintf("files:%d", len(cs.Order)))
 		if cs.CrossCut {
 			c.Hit("files:boundary-inside-an-item")
+		}
+		if cs.EmptyFiles > 0 {
+			c.Hit("files:has-empty-file")
+			if cs.Order[0][0] == 'e' && cs.Files[cs.Order[0]] == "" {
+				c.Hit("files:first-file-empty")
+			}
+		}
+		if cs.CommentFiles > 0 {
+			c.Hit("files:has-comment-only-file")
+		}
+		if cs.NoFinalNewline {
+			c.Hit("files:some-without-final-newline")
+		}
+		if cs.Pre != "" {
+			c.Hit(fmt.Sprintf("preexisting-profile:%s/append=%v/%s", cs.Pre, cs.PreAppend, cs.PreMode))
+			zero := 0
+			for _, pl := range r.countProf {
+				if pl.Count == 0 {
+					zero++
+				}
+			}
+			if zero > 0 {
+				c.Hit("preexisting-profile:program-has-unexecuted-blocks")
+			}
 		}
 		c.Hit(fmt.Sprintf("exit-status:%d", r.plain.Status))
 		hit := 0
